@@ -253,6 +253,23 @@ func runC14(r *mon.Run) {
 			if s3, err := sk.Sign(&fixedReader{data: aux, chunk: gen.Pick(rng, 0, 7), stalls: gen.Pick(rng, 2, 100, 101, 400)}, msg, nil); err != nil || !bytes.Equal(s3, want) {
 				w.Fail("c14/Sign:reader-stalls", "a reader that answers (0, nil) many times before delivering the same 32 bytes gives a different signature", det...)
 			}
+			if i%8 == 5 {
+				// the same 32 bytes through the standard library's reader types and through a reader
+				// offering every optional io interface
+				for _, sr := range stdReaders(aux, rng.Bytes(24)) {
+					s3, err := sk.Sign(sr.rd, msg, nil)
+					if err != nil || !bytes.Equal(s3, want) {
+						w.Fail("c14/Sign:reader-std-type", fmt.Sprintf("a %s delivering the same 32 bytes gives %x (err %v)", sr.name, s3, err), det...)
+					}
+					if l := sr.left(); l >= 0 && sr.total-l != 32 {
+						w.Fail("c14/Sign:reader-std-type:consumed", fmt.Sprintf("Sign took %d bytes from a %s holding %d, expected exactly 32", sr.total-l, sr.name, sr.total), det...)
+					}
+					if sr.done != nil {
+						sr.done()
+					}
+				}
+				w.Class("c14:reader:std-types")
+			}
 			if i%8 == 1 {
 				w.Class("c14:reader:async-fill+stack-move")
 				if s3, err := sk.Sign(&fixedReader{data: aux, async: true}, msg, nil); err != nil || !bytes.Equal(s3, want) {
